@@ -10,7 +10,7 @@ use std::sync::atomic::{AtomicUsize, Ordering};
 use std::time::{Duration, Instant};
 
 pub const NSLOTS: usize = 64;
-pub const SLOT: usize = 8192;
+pub const SLOT: usize = 1 << 17;
 
 static BASE: AtomicUsize = AtomicUsize::new(0);
 static NEXT_SLOT: AtomicUsize = AtomicUsize::new(0);
